@@ -1126,8 +1126,13 @@ func (u *Unit) callByContract(c *ast.CallExpr, fi *FuncInfo, blk *Block, recv *V
 		i := 0
 		for _, fld := range fi.Decl.Type.Params.List {
 			for _, n := range fld.Names {
-				if i < len(c.Args) && i < sig.Params().Len() && !(sig.Variadic() && i == sig.Params().Len()-1) {
-					if at := u.Info.TypeOf(c.Args[i]); at != nil {
+				if i < len(c.Args) && i < sig.Params().Len() {
+					at := u.Info.TypeOf(c.Args[i])
+					if sig.Variadic() && i == sig.Params().Len()-1 && at != nil {
+						// the packed variadic slice has the element type of the arguments
+						at = types.NewSlice(at)
+					}
+					if at != nil {
 						if v, ok := scope[n.Name]; ok {
 							if b, isB := at.(*types.Basic); !(isB && b.Info()&types.IsUntyped != 0) && u.sortOf(at) == v.Sort {
 								scope[n.Name] = Value{v.Term, at}
